@@ -119,6 +119,11 @@ pub trait Property {
     fn shrink_budget(&self) -> (u32, u32) {
         (4000, 3000)
     }
+    /// Stop generating once a violation is on record (for checks whose failing cases are expensive: each one waits
+    /// out a time limit or compiles a program). Never changes anything on a tree where the property holds.
+    fn fail_fast(&self) -> bool {
+        false
+    }
     /// Is this (possibly hand-reduced) case inside the domain the property quantifies over?
     /// Used by the structural reducer, which deletes array elements of the case's JSON form.
     fn in_domain(&self, _case: &Self::Case) -> bool {
@@ -160,6 +165,7 @@ pub fn case_runner(seed: u64, id: &str, index: u64) -> TestRunner {
 
 /// Result of running `check` on one case with panics caught.
 pub fn run_case<P: Property>(p: &P, case: &P::Case) -> Obs {
+    heartbeat();
     let mut obs = Obs::default();
     let r = panic::catch(std::panic::AssertUnwindSafe(|| p.check(case, &mut obs)));
     if let Err(pi) = r {
@@ -352,6 +358,28 @@ pub struct WorkerResult {
     pub samples: Vec<serde_json::Value>,
     pub violations: Vec<ReplayFile>,
     pub harness_errors: Vec<String>,
+}
+
+/// Heartbeat of a worker: while a failure is being confirmed and shrunk the last-case record does not change, and a
+/// check whose failing evaluations wait out time limits would look hung to the supervisor's watchdog. `run_case`
+/// beats at most once per second; a single evaluation that never returns still stops the beats.
+pub static HEARTBEAT: std::sync::OnceLock<std::path::PathBuf> = std::sync::OnceLock::new();
+pub fn heartbeat() {
+    use std::cell::Cell;
+    thread_local! {
+        static LAST: Cell<Option<std::time::Instant>> = const { Cell::new(None) };
+        static BEATS: Cell<u64> = const { Cell::new(0) };
+    }
+    if let Some(p) = HEARTBEAT.get() {
+        if LAST.with(|c| c.get().map_or(true, |t| t.elapsed() >= std::time::Duration::from_secs(1))) {
+            let n = BEATS.with(|b| {
+                b.set(b.get() + 1);
+                b.get()
+            });
+            let _ = std::fs::write(p, n.to_string());
+            LAST.with(|c| c.set(Some(std::time::Instant::now())));
+        }
+    }
 }
 
 pub fn new_tree<P: Property>(strategy: &BoxedStrategy<P::Case>, seed: u64, index: u64) -> Box<dyn ValueTree<Value = P::Case>> {
